@@ -193,3 +193,150 @@ Proof.
     + rewrite He. f_equal. f_equal. unfold st1. rewrite update_twice. reflexivity.
     + rewrite Hv. cbn [fold_left]. unfold items1. rewrite remove_item_exact. reflexivity.
 Qed.
+
+(* ---------- several elements of one sequence in ANY visiting order ----------
+   After an element is removed the remaining victims' positions are shifted
+   (Go keeps pointers; the survivors' recorded keys are renumbered), so each
+   later victim is still removed itself, not a neighbour. *)
+Fixpoint keep_not_in {A} (ps : list nat) (l : list A) (i : nat) : list A :=
+  match l with
+  | [] => []
+  | x :: r => if existsb (Nat.eqb i) ps then keep_not_in ps r (S i) else x :: keep_not_in ps r (S i)
+  end.
+
+Definition shift_pos (p j : nat) : nat := if Nat.ltb p j then (j - 1)%nat else j.
+
+Lemma existsb_shift p j rest :
+  ~ In p rest -> j <> p ->
+  existsb (Nat.eqb (shift_pos p j)) (List.map (shift_pos p) rest) = existsb (Nat.eqb j) rest.
+Proof.
+  intros Hp Hj. induction rest as [|r rest IH]; [reflexivity|]. cbn [List.map existsb].
+  assert (Hr : r <> p) by (intro; apply Hp; left; congruence).
+  rewrite IH by (intro; apply Hp; right; assumption). f_equal.
+  unfold shift_pos.
+  destruct (Nat.ltb_spec p j) as [E1|E1], (Nat.ltb_spec p r) as [E2|E2], (Nat.eqb_spec j r) as [E3|E3];
+    first [ reflexivity | apply Nat.eqb_eq; lia | apply Nat.eqb_neq; lia ].
+Qed.
+
+(* beyond the removed position every index is looked up one lower among the shifted victims *)
+Lemma keep_not_in_tail {A} (l : list A) i rest : ~ In i rest -> forall k, (i < k)%nat ->
+  keep_not_in (i :: rest) l k = keep_not_in (List.map (shift_pos i) rest) l (k - 1).
+Proof.
+  intros Hp. induction l as [|y l IHl]; intros k Hk; [reflexivity|]. cbn [keep_not_in existsb].
+  replace (Nat.eqb k i) with false by (symmetry; apply Nat.eqb_neq; lia). cbn [orb].
+  assert (Hs : shift_pos i k = (k - 1)%nat).
+  { unfold shift_pos. replace (Nat.ltb i k) with true by (symmetry; apply Nat.ltb_lt; lia). reflexivity. }
+  replace (existsb (Nat.eqb (k - 1)) (List.map (shift_pos i) rest)) with (existsb (Nat.eqb k) rest)
+    by (rewrite <- Hs; symmetry; apply existsb_shift; [assumption | lia]).
+  rewrite (IHl (S k)) by lia. replace (S k - 1)%nat with (S (k - 1)) by lia. reflexivity.
+Qed.
+
+(* removing position p first and then the shifted rest = removing p :: rest at once *)
+Lemma keep_not_in_drop {A} (l : list A) : forall i p rest,
+  (i <= p)%nat -> ~ In p rest ->
+  keep_not_in (p :: rest) l i =
+  keep_not_in (List.map (shift_pos p) rest) (drop_at (p - i) l) i.
+Proof.
+  induction l as [|x l IH]; intros i p rest Hi Hp.
+  - unfold drop_at. rewrite firstn_nil, skipn_nil. reflexivity.
+  - cbn [keep_not_in existsb]. destruct (Nat.eqb i p) eqn:E.
+    + apply Nat.eqb_eq in E. subst p. rewrite Nat.sub_diag. unfold drop_at. cbn [firstn skipn app orb].
+      rewrite (keep_not_in_tail l i rest Hp (S i)) by lia. replace (S i - 1)%nat with i by lia. reflexivity.
+    + apply Nat.eqb_neq in E. cbn [orb].
+      assert (Hlt : (i < p)%nat) by lia.
+      replace (p - i)%nat with (S (p - S i)) by lia. unfold drop_at. cbn [firstn skipn app keep_not_in].
+      assert (Hs : shift_pos p i = i).
+      { unfold shift_pos. replace (Nat.ltb p i) with false by (symmetry; apply Nat.ltb_ge; lia). reflexivity. }
+      replace (existsb (Nat.eqb i) (List.map (shift_pos p) rest)) with (existsb (Nat.eqb i) rest)
+        by (rewrite <- Hs at 2; symmetry; apply existsb_shift; [assumption | lia]).
+      fold (drop_at (p - S i) l). rewrite (IH (S i) p rest) by (assumption || lia). reflexivity.
+Qed.
+
+Lemma shift_ptr_other r q p j : j <> p -> shift_ptr (r, q) [p] (r, q ++ [j]) = Some (r, q ++ [shift_pos p j]).
+Proof.
+  intros H. unfold shift_ptr. cbn [fst snd]. rewrite Nat.eqb_refl. cbn [negb].
+  rewrite strip_prefix_app. cbn [existsb filter].
+  replace (Nat.eqb j p) with false by (symmetry; apply Nat.eqb_neq; assumption). cbn [orb].
+  unfold shift_pos. destruct (Nat.ltb p j); cbn [length]; [|rewrite Nat.sub_0_r]; reflexivity.
+Qed.
+
+Lemma shift_ptrs_others r q p js : ~ In p js ->
+  shift_ptrs (r, q) [p] (List.map (fun j => (r, q ++ [j])) js) = List.map (fun j => (r, q ++ [j])) (List.map (shift_pos p) js).
+Proof.
+  induction js as [|j js IH]; intros H; cbn [List.map shift_ptrs]; [reflexivity|].
+  rewrite shift_ptr_other by (intro; apply H; left; congruence).
+  f_equal. apply IH. intro. apply H. right. assumption.
+Qed.
+
+Lemma shift_pos_inj p a b : a <> p -> b <> p -> shift_pos p a = shift_pos p b -> a = b.
+Proof.
+  unfold shift_pos. intros Ha Hb.
+  destruct (Nat.ltb_spec p a), (Nat.ltb_spec p b); lia.
+Qed.
+
+Lemma NoDup_shift p js : ~ In p js -> NoDup js -> NoDup (List.map (shift_pos p) js).
+Proof.
+  induction js as [|j js IH]; intros Hp Hn; cbn [List.map]; [constructor|].
+  inversion Hn as [|? ? Hnj Hn']; subst. constructor.
+  - intro Hin. apply in_map_iff in Hin as (b & Hb & Hbin). apply Hnj.
+    assert (b = j); [|subst; assumption].
+    apply (shift_pos_inj p); [intro; subst; apply Hp; right; assumption | intro; subst; apply Hp; left; reflexivity | assumption].
+  - apply IH; [intro; apply Hp; right; assumption | assumption].
+Qed.
+
+(* any number of elements of ONE sequence, selected in ANY order: exactly those elements disappear *)
+Lemma keep_not_in_nil {A} (l : list A) : forall i, keep_not_in [] l i = l.
+Proof. induction l as [|x l IHl]; intros i; cbn; [reflexivity|]. f_equal. apply IHl. Qed.
+
+Lemma del_loop_any_n r q : forall n ps items st cx fuel,
+  length ps = n ->
+  deref st (r, q) = Some (Seq items) ->
+  NoDup ps -> Forall (fun p => (p < length items)%nat) ps -> (length ps <= fuel)%nat ->
+  exists cx' items',
+    del_loop fuel (List.map (fun p => (r, q ++ [p])) ps) cx st = Ok (cx', update st (r, q) (fun _ => Seq items'))
+    /\ List.map snd items' = keep_not_in ps (List.map snd items) O.
+Proof.
+  induction n as [|n IH]; intros ps items st cx fuel Hlen Hd Hn Hb Hf.
+  - destruct ps; [|discriminate]. exists cx, items. split.
+    + rewrite (update_id _ _ _ Hd). destruct fuel; reflexivity.
+    + rewrite keep_not_in_nil. reflexivity.
+  - destruct ps as [|p ps]; [discriminate|]. injection Hlen as Hlen.
+    destruct fuel as [|f]; [cbn in Hf; lia|].
+    inversion Hn as [|? ? Hnp Hn']; subst. inversion Hb as [|? ? Hp Hb']; subst.
+    cbn [List.map]. rewrite (del_loop_step_seq f r q p _ st items cx Hd Hp).
+    rewrite (shift_ptrs_others r q p ps Hnp).
+    set (items1 := remove_item items p O 0).
+    set (st1 := update st (r, q) (fun _ => Seq items1)).
+    assert (Hd1 : deref st1 (r, q) = Some (Seq items1)) by (unfold st1; rewrite (deref_update_same _ _ _ _ Hd); reflexivity).
+    assert (Hb1 : Forall (fun j => (j < length items1)%nat) (List.map (shift_pos p) ps)).
+    { unfold items1. rewrite length_remove_item by assumption.
+      rewrite Forall_forall in *. intros j Hj. apply in_map_iff in Hj as (b & <- & Hbin).
+      specialize (Hb' b Hbin). assert (b <> p) by (intro; subst; contradiction).
+      unfold shift_pos. destruct (Nat.ltb_spec p b); lia. }
+    destruct (IH (List.map (shift_pos p) ps) items1 st1 (shift_ptrs (r, q) [p] cx) f
+                 ltac:(rewrite map_length; reflexivity) Hd1 (NoDup_shift p ps Hnp Hn') Hb1
+                 ltac:(rewrite map_length; cbn in Hf; lia)) as (cx' & items' & He & Hv).
+    exists cx', items'. split.
+    + rewrite He. f_equal. f_equal. unfold st1. rewrite update_twice. reflexivity.
+    + rewrite Hv. unfold items1. rewrite remove_item_exact.
+      rewrite (keep_not_in_drop (List.map snd items) O p ps (Nat.le_0_l p) Hnp). rewrite Nat.sub_0_r. reflexivity.
+Qed.
+
+Theorem del_loop_any r q ps items st cx fuel :
+  deref st (r, q) = Some (Seq items) ->
+  NoDup ps -> Forall (fun p => (p < length items)%nat) ps -> (length ps <= fuel)%nat ->
+  exists cx' items',
+    del_loop fuel (List.map (fun p => (r, q ++ [p])) ps) cx st = Ok (cx', update st (r, q) (fun _ => Seq items'))
+    /\ List.map snd items' = keep_not_in ps (List.map snd items) O.
+Proof. apply (del_loop_any_n r q (length ps)). reflexivity. Qed.
+
+Lemma keep_not_in_ext {A} (l : list A) : forall p1 p2 i,
+  (forall j, existsb (Nat.eqb j) p1 = existsb (Nat.eqb j) p2) -> keep_not_in p1 l i = keep_not_in p2 l i.
+Proof.
+  induction l as [|x l IH]; intros p1 p2 i H; cbn [keep_not_in]; [reflexivity|].
+  rewrite (H i). rewrite (IH p1 p2 (S i) H). reflexivity.
+Qed.
+
+Lemma keep_not_in_comm {A} (p1 p2 : list nat) (l : list A) :
+  keep_not_in (p1 ++ p2) l O = keep_not_in (p2 ++ p1) l O.
+Proof. apply keep_not_in_ext. intros j. rewrite !existsb_app. apply orb_comm. Qed.
